@@ -14,7 +14,12 @@ Case kinds (all JSON-able, self-contained):
            DirectPtychography (xcorr_fit, grid_search, optuna_search) are judged by what the alias rule implies:
            alias dictionary and canonical dictionary give the same fit, and the coefficients left in force are
            evaluated by aberration_surface as the surface of their alias-resolved form
-  fit      _return_lateral_shifts(rot, {C10, C12, phi12}) -> fit_aberrations_from_shifts returns the generators
+  alias_history  one params dictionary object used 2..4 times (factories, setter, coefficient-only sites on its
+           nested dictionary) and first.probe_params fed into further models: after every step every model built so
+           far carries the dictionary's meaning, and later uses give the first use's result
+  fit      shifts of {C10, C12, phi12, rotation} on a bright-field pixel set (discs, annuli, half discs, half annuli,
+           wedges, random subsets; mostly not point-symmetric and off-axis), from _return_lateral_shifts or from the
+           harness's float64 model -> fit_aberrations_from_shifts returns the generators and refits the field
 """
 
 from __future__ import annotations
@@ -34,8 +39,8 @@ from vq.refs import c12_ref as R
 # the clean tree: <= 8.2e-15 of that unit (see meta); 1e-10 leaves 4 orders of head-room and every
 # representation error of interest is O(1) in that unit.
 TOL64 = 1e-10
-# float32 fit (spatial_frequencies, shifts and lstsq are float32): measured <= 4.9e-6 over 20 000 targeted
-# cases (20x head-room); the mutants of interest are O(1).  See meta.
+# float32 fit (spatial_frequencies, shifts and lstsq are float32): measured <= 5.3e-6 over 38 000 targeted
+# cases with the basis condition number capped at MAX_COND (19x head-room); the mutants of interest are O(1).  See meta.
 TOL_FIT = 1e-4
 
 SITES = [
@@ -214,6 +219,43 @@ def alias_cases(draw):
     return case
 
 
+HISTORY_BUILD = ["pixelated_from_params", "parametric_from_params", "pixelated_from_array", "dip_from_model", "setter"]
+HISTORY_REFEED = ["refeed_parametric", "refeed_pixelated_array", "refeed_dip", "refeed_setter"]
+HISTORY_COEF = ["validate", "standardize", "direct_init", "direct_override"]
+
+
+@st.composite
+def history_cases(draw):
+    """One params dictionary OBJECT used 2..4 times (model factories, setter calls, the coefficient-only sites on
+    its nested dictionary) and the probe_params of models built so far fed into further models."""
+    syms = draw(st.lists(st.sampled_from(R.POLAR_SYMBOLS), min_size=0, max_size=5, unique=True))
+    if "C10" not in syms:
+        syms.insert(draw(st.integers(0, len(syms))), "C10")
+    inv = {v[0]: k for k, v in R.ALIASES.items()}
+    items = []
+    for s_ in syms:
+        key = inv[s_] if (s_ in inv and draw(st.integers(0, 3)) != 0) else s_
+        if s_.startswith("phi"):
+            v = draw(_ANGLES)
+        else:
+            # magnitudes >= 1e-3 A: the stored coefficients are also evaluated as a surface (no subnormal products)
+            v = draw(st.floats(1e-3, 1e6).map(lambda x: x) | st.integers(1, 5000) | st.sampled_from([100.0, 250.5]))
+            v = v * draw(st.sampled_from([1, -1]))
+        items.append([key, v])
+    form = draw(st.sampled_from(["nested", "nested", "mixed", "flat"]))
+    nested = [form == "nested" or (form == "mixed" and draw(st.booleans())) for _ in items]
+    nsteps = draw(st.integers(2, 4))
+    steps = []
+    for i in range(nsteps):
+        pool = list(HISTORY_BUILD)
+        if i > 0:
+            pool += HISTORY_REFEED
+        if any(nested):
+            pool += HISTORY_COEF[: 2 + 2 * draw(st.integers(0, 1))]
+        steps.append([draw(st.sampled_from(pool)), draw(st.integers(0, 3)), draw(st.integers(0, 3))])
+    return {"kind": "alias_history", "items": items, "nested": nested, "steps": steps, "fresh_outer": draw(st.integers(0, 3)) == 0}
+
+
 @st.composite
 def xcorr_cases(draw):
     """fit_hyperparameters_cross_correlation(aberration_coefs=<aliases>) against the same call with the canonical
@@ -280,10 +322,39 @@ def search_cases(draw):
     }
 
 
+MASK_TYPES = ["disc", "annulus", "half_disc", "half_annulus", "wedge", "random"]
+# largest condition number of the least-squares basis (k * lambda on the selected pixels) that is still called
+# identifiable: the float32 error of the fit grows with it; TOL_FIT is measured under this cap
+MAX_COND = 30.0
+
+
+@st.composite
+def bf_masks(draw, rmax):
+    """Bright-field pixel sets: besides the full disc, sets that are not point-symmetric and do not contain (or do
+    not start at) the optical-axis pixel -- half discs, half annuli, wedges, random subsets -- as sub-apertures
+    and tilted illumination produce."""
+    t = draw(st.sampled_from(MASK_TYPES + ["half_disc", "half_annulus", "wedge", "random"]))
+    m = {"type": t}
+    if t in ("annulus", "half_annulus"):
+        m["rin"] = draw(st.floats(0.0, max(0.0, rmax - 1.5)))
+    if t in ("half_disc", "half_annulus"):
+        m["axis"] = draw(st.integers(0, 1))
+        m["sign"] = draw(st.sampled_from([1, -1]))
+        m["strict"] = draw(st.sampled_from([True, True, False]))
+    if t == "wedge":
+        m["phi0"] = draw(st.floats(-math.pi, math.pi))
+        m["width"] = draw(st.floats(0.8, 3.0))
+    if t == "random":
+        m["p"] = draw(st.floats(0.25, 0.9))
+        m["seed"] = draw(_SEEDS)
+    m["drop_origin"] = draw(st.booleans())
+    return m
+
+
 @st.composite
 def fit_cases(draw):
-    n0 = draw(st.integers(6, 14))
-    n1 = draw(st.integers(6, 14))
+    n0 = draw(st.integers(6, 16))
+    n1 = draw(st.integers(6, 16))
     rmax = min(n0, n1) / 2.0 - 1.0
     wide = draw(st.integers(0, 3)) == 0
     c10 = 10.0 ** draw(st.floats(0.0, 5.0)) * draw(st.sampled_from([1.0, -1.0]))
@@ -291,8 +362,12 @@ def fit_cases(draw):
     return {
         "kind": "fit",
         "gpts": [n0, n1],
-        "radius": draw(st.floats(1.0, max(1.0, rmax))),
-        "extra_seed": draw(st.none() | _SEEDS),
+        "radius": draw(st.floats(1.0, max(1.0, rmax)) | st.just(max(1.0, rmax))),
+        "mask": draw(bf_masks(rmax)),
+        # dp: shifts from DirectPtychography._return_lateral_shifts on that mask; direct: shifts of the quadratic
+        # model computed by the harness in float64 and handed to fit_aberrations_from_shifts as float32
+        "mode": draw(st.sampled_from(["dp", "direct"])),
+        "extra_seed": draw(st.none() | st.none() | _SEEDS),
         "rs": [10.0 ** draw(st.floats(-2.5, -1.0)), 10.0 ** draw(st.floats(-2.5, -1.0))]
         if draw(st.booleans())
         else [0.02, 0.02],
@@ -865,8 +940,204 @@ def _check_alias(ctx, case):
 
 
 # ------------------------------------------------------------------------------------------------
+# kind: alias_history
+# ------------------------------------------------------------------------------------------------
+def _judge_coefs(case, what, res, prec, expected, items):
+    """`res` (symbol -> float) carries exactly the meaning `expected`: every expected symbol with its value, no other
+    symbol non-zero."""
+    for sym, want in expected.items():
+        got = res.get(sym)
+        if got is None:
+            if want == 0.0:
+                continue
+            raise core.Violation("%s: %s is missing (expected %r) from %r; input %r" % (what, sym, want, {k: v for k, v in res.items() if v}, items), case)
+        ok = math.isclose(got, float(np.float32(want)), rel_tol=1e-6, abs_tol=0.0) if prec == 32 else got == want
+        if not ok:
+            raise core.Violation("%s: %s=%r, expected %r; input %r" % (what, sym, got, want, items), case)
+    for sym, got in res.items():
+        if sym not in expected and sym in R.POLAR_SYMBOLS and got != 0.0:
+            raise core.Violation("%s: coefficient %s=%r appeared although it was not given; input %r" % (what, sym, got, items), case)
+
+
+def _check_history(ctx, case):
+    torch, cp, du = _q()
+    from quantem.core.utils.validators import validate_aberration_coefficients
+    from quantem.diffractive_imaging.probe_models import ProbeDIP, ProbeParametric, ProbePixelated
+
+    items = [(k, v) for k, v in case["items"]]
+    nested = list(case["nested"])
+    steps = [tuple(st_) for st_ in case["steps"]]
+    E = R.canonical(items)  # meaning of the whole params dictionary
+    EN = R.canonical([it for it, n in zip(items, nested) if n])  # meaning of its nested coefficient dictionary
+    n_alias = sum(1 for k, _ in items if k in R.ALIASES)
+    shared_uses = sum(1 for op, _, _ in steps if op in HISTORY_BUILD or op in HISTORY_COEF)
+    classes = ["alias_history", "history_form:" + ("nested" if all(nested) else "flat" if not any(nested) else "mixed")]
+    classes += ["history_op:" + op for op, _, _ in steps]
+    if shared_uses >= 2:
+        classes.append("history_same_dict_used_twice")
+    if any(op in HISTORY_REFEED for op, _, _ in steps):
+        classes.append("history_refeed")
+    ctx.record(case, n_alias > 0 and len(steps) >= 2 and (shared_uses >= 2 or "history_refeed" in classes), classes)
+
+    # the caller's objects: built once, reused by every step
+    c = {k: v for (k, v), n in zip(items, nested) if n}
+
+    def outer():
+        d_ = {"energy": 80e3, "semiangle_cutoff": 20.0}
+        d_.update({k: v for (k, v), n in zip(items, nested) if not n})
+        if c or any(nested):
+            d_["aberration_coefs"] = c
+        return d_
+
+    d = outer()
+    models = []  # (label, model)
+    reassigned = set()
+    lam = 0.0418
+    ax, ay = R.points(11, 12)
+    tax = torch.tensor(ax, dtype=torch.float64)
+    tay = torch.tensor(ay, dtype=torch.float64)
+    alpha, phi = torch.sqrt(tax * tax + tay * tay), torch.atan2(tay, tax)
+    ref = R.surface_polar(ax, ay, lam, E)
+    S = R.scale_polar(np.hypot(ax, ay), lam, E)
+    arr = np.ones((4, 4), dtype=np.complex64)
+
+    def judge_models(after):
+        for label, mdl in models:
+            what = "%s (after step %s)" % (label, after)
+            with ctx.sut(case, what):
+                coefs = {k: float(v) for k, v in mdl.probe_params["aberration_coefs"].items()}
+                chi = _np(cp.aberration_surface(alpha, phi, lam, coefs))
+            _judge_coefs(case, what + ": probe_params['aberration_coefs']", coefs, 64, E, items)
+            # the learnable copies are made at construction; a later probe_params assignment does not rebuild them
+            # (not part of the claim), so they are only judged on models that were never re-assigned
+            if isinstance(mdl, ProbeParametric) and id(mdl) not in reassigned:
+                with ctx.sut(case, what):
+                    learned = {k: float(v) for k, v in mdl.aberration_coefs.items()}
+                _judge_coefs(case, what + ": learnable aberration_coefs", learned, 32, E, items)
+            e, _i = _rel(chi, ref, S)
+            if e > TOL64:
+                raise core.Violation("%s: aberration surface of the stored coefficients is off by %.3g of the term scale" % (what, e), case)
+
+    for si, (op, j, k2) in enumerate(steps):
+        tag = "%d:%s" % (si + 1, op)
+        dd = outer() if case.get("fresh_outer") else d  # the nested dictionary `c` is the same object either way
+        if op in HISTORY_REFEED and not models:
+            op = "parametric_from_params"
+        with ctx.sut(case, "history step " + tag):
+            if op == "pixelated_from_params":
+                models.append((tag, ProbePixelated.from_params(dd)))
+            elif op == "parametric_from_params":
+                models.append((tag, ProbeParametric.from_params(dd)))
+            elif op == "pixelated_from_array":
+                models.append((tag, ProbePixelated.from_array(arr.copy(), probe_params=dd)))
+            elif op == "dip_from_model":
+                models.append((tag, ProbeDIP.from_model(torch.nn.Identity(), probe_params=dd, roi_shape=(4, 4))))
+            elif op == "setter":
+                if not models:
+                    base = {"energy": 80e3, "semiangle_cutoff": 20.0}
+                    models.append((tag, (ProbeParametric if j % 2 else ProbePixelated).from_params(base)))
+                reassigned.add(id(models[j % len(models)][1]))
+                models[j % len(models)][1].probe_params = dd
+            elif op == "refeed_parametric":
+                models.append((tag, ProbeParametric.from_params(models[j % len(models)][1].probe_params)))
+            elif op == "refeed_pixelated_array":
+                models.append((tag, ProbePixelated.from_array(arr.copy(), probe_params=models[j % len(models)][1].probe_params)))
+            elif op == "refeed_dip":
+                src = models[j % len(models)][1]
+                if isinstance(src, ProbePixelated) and hasattr(src, "_probe") and hasattr(src, "_roi_shape"):
+                    models.append((tag, ProbeDIP.from_pixelated(torch.nn.Identity(), src)))
+                else:
+                    models.append((tag, ProbeDIP.from_model(torch.nn.Identity(), probe_params=src.probe_params, roi_shape=(4, 4))))
+            elif op == "refeed_setter":
+                reassigned.add(id(models[k2 % len(models)][1]))
+                models[k2 % len(models)][1].probe_params = models[j % len(models)][1].probe_params
+            elif op == "validate":
+                _judge_coefs(case, "validate_aberration_coefficients (step %s)" % tag, {k: float(v) for k, v in validate_aberration_coefficients(c).items()}, 64, EN, items)
+            elif op == "standardize":
+                _judge_coefs(case, "standardize_aberration_coefs (step %s)" % tag, {k: float(v) for k, v in cp.standardize_aberration_coefs(c).items()}, 32, EN, items)
+            elif op == "direct_init":
+                _judge_coefs(case, "DirectPtychography.aberration_coefs (step %s)" % tag, {k: float(v) for k, v in _tiny_direct(torch, c).aberration_coefs.items()}, 64, EN, items)
+            elif op == "direct_override":
+                res = _tiny_direct(torch, {}).hyperparameter_state.current_aberrations(c)
+                _judge_coefs(case, "current_aberrations(override) (step %s)" % tag, {k: float(v) for k, v in res.items()}, 64, EN, items)
+            else:
+                raise core.HarnessError("unknown history op %r" % op)
+        # after EVERY use: every model built so far still carries the meaning of the dictionary it was built from
+        judge_models(tag)
+
+
+# ------------------------------------------------------------------------------------------------
 # kind: fit
 # ------------------------------------------------------------------------------------------------
+def _wavelength(energy):
+    """relativistic electron wavelength [A] (CODATA constants), for the harness's own forward model."""
+    m, e, c, h = 9.1093837015e-31, 1.602176634e-19, 299792458.0, 6.62607015e-34
+    return h / math.sqrt(2 * m * e * energy * (1 + e * energy / (2 * m * c * c))) * 1e10
+
+
+def _bf_mask(case):
+    """The bright-field pixel set of a fit case (corner-centred, like quantem's bf_mask) and its classes.  When the
+    drawn set does not determine the 2x2 matrix well (fewer than 4 pixels, or the least-squares basis k*lambda has
+    a condition number above MAX_COND), pixels are added by construction: first the half disc of the same radius on
+    the side of the set's centroid, then the full disc."""
+    n0, n1 = case["gpts"]
+    rs0, rs1 = (float(v) for v in case["rs"])
+    K0, K1 = np.meshgrid(np.fft.fftfreq(n0, 1.0 / n0), np.fft.fftfreq(n1, 1.0 / n1), indexing="ij")
+    r2 = K0 * K0 + K1 * K1
+    Rr = float(case["radius"])
+    disc = r2 <= Rr * Rr
+    m = case.get("mask") or {"type": "disc"}
+    t = m["type"]
+    mask = disc.copy()
+    if t in ("annulus", "half_annulus"):
+        mask &= r2 > float(m["rin"]) ** 2
+    if t in ("half_disc", "half_annulus"):
+        K = K0 if int(m["axis"]) == 0 else K1
+        mask &= (K * int(m["sign"]) > 0) if m.get("strict", True) else (K * int(m["sign"]) >= 0)
+    if t == "wedge":
+        d = np.angle(np.exp(1j * (np.arctan2(K1, K0) - float(m["phi0"]))))
+        mask &= (np.abs(d) <= float(m["width"]) / 2) & (r2 > 0)
+    if t == "random":
+        mask &= np.random.default_rng(int(m["seed"])).random((n0, n1)) < float(m["p"])
+    if case.get("extra_seed") is not None:
+        mask |= np.random.default_rng(int(case["extra_seed"])).random((n0, n1)) < 0.15
+    if m.get("drop_origin"):
+        mask[0, 0] = False
+
+    def cond(mk):
+        if mk.sum() < 4:
+            return float("inf")
+        sv = np.linalg.svd(np.stack([K0[mk] * rs0, K1[mk] * rs1], 1), compute_uv=False)
+        return float(sv[0] / sv[-1]) if sv[-1] > 0 else float("inf")
+
+    fallback = None
+    if cond(mask) > MAX_COND:
+        c0 = float(K0[mask].sum()) if mask.any() else 1.0
+        c1 = float(K1[mask].sum()) if mask.any() else 0.0
+        big = r2 <= max(Rr, 2.0) ** 2
+        half = big & ((K0 * c0 + K1 * c1) > 0) if (c0 or c1) else big & (K0 > 0)
+        mask = mask | half
+        fallback = "half_disc_added"
+        if cond(mask) > MAX_COND:
+            mask = mask | big
+            fallback = "disc_added"
+            if m.get("drop_origin"):
+                mask[0, 0] = False
+    cnd = cond(mask)
+    sym = bool(np.array_equal(mask, np.roll(mask[::-1, ::-1], (1, 1), (0, 1))))
+    first_is_axis = bool(mask[0, 0])
+    classes = [
+        "mask:" + t,
+        "mask_point_symmetric" if sym else "mask_not_point_symmetric",
+        "mask_first_pixel_is_axis" if first_is_axis else "mask_first_pixel_off_axis",
+    ]
+    if not sym and not first_is_axis:
+        classes.append("mask_asymmetric_and_off_axis")
+    if fallback:
+        classes.append("mask_" + fallback)
+    return mask, cnd, classes, K0, K1
+
+
 def _check_fit(ctx, case):
     torch, cp, du = _q()
     from quantem.core.datastructures import Dataset2d, Dataset3d
@@ -874,35 +1145,66 @@ def _check_fit(ctx, case):
 
     n0, n1 = case["gpts"]
     C10, C12, phi12, rot = float(case["C10"]), float(case["C12"]), float(case["phi12"]), float(case["rot"])
-    identifiable = abs(C12) < abs(C10) and abs(rot) < math.pi / 2 - 0.005
+    mode = case.get("mode", "dp")
+    mask, cnd, mclasses, K0, K1 = _bf_mask(case)
+    usable = cnd <= MAX_COND  # false only when even the full disc is ill-conditioned (extreme anisotropy)
+    identifiable = usable and abs(C12) < abs(C10) and abs(rot) < math.pi / 2 - 0.005
     classes = [
         "fit",
+        "fit_mode:" + mode,
         "identifiable" if identifiable else "field_only",
         "C10>0" if C10 > 0 else "C10<0",
         "square" if n0 == n1 and case["rs"][0] == case["rs"][1] else "anisotropic_grid",
-    ]
-    ctx.record(case, C12 != 0.0, classes)
+    ] + mclasses
+    if not usable:
+        classes.append("fit_ill_conditioned_not_judged")
+    ctx.record(case, usable and C12 != 0.0, classes)
+    if not usable:
+        return
 
-    k0 = np.fft.fftfreq(n0, 1.0 / n0)
-    k1 = np.fft.fftfreq(n1, 1.0 / n1)
-    mask = (k0[:, None] ** 2 + k1[None, :] ** 2) <= float(case["radius"]) ** 2
-    if case.get("extra_seed") is not None:
-        rng = np.random.default_rng(int(case["extra_seed"]))
-        mask = mask | (rng.random((n0, n1)) < 0.15)
-    nb = int(mask.sum())
-    vbf = np.ones((nb, 4, 4), dtype=np.float32)
-    vd = Dataset3d.from_array(vbf, name="vbf", units=("index", "A", "A"), sampling=(1, 1.0, 1.0))
-    md = Dataset2d.from_array(mask, name="mask", units=("A^-1", "A^-1"), sampling=tuple(float(s) for s in case["rs"]))
     gen = {"C10": C10, "C12": C12, "phi12": phi12}
-    with ctx.sut(case, "DirectPtychography.from_virtual_bfs"):
-        dp = DirectPtychography.from_virtual_bfs(
-            vd, md, energy=float(case["energy"]), rotation_angle=0.0, aberration_coefs={},
-            semiangle_cutoff=20.0, crop_bf_mask=False, verbose=False,
-        )  # fmt: skip
-    with ctx.sut(case, "_return_lateral_shifts"):
-        shifts = dp._return_lateral_shifts(rot, gen, dp.bf_mask)
+    rs = tuple(float(v) for v in case["rs"])
+    tmask = torch.tensor(mask)
+
+    def forward64(c10, c12, p12, th, lam):
+        """harness model of the shifts: s = A R(th) k lambda with A = [[a, b], [b, c]], R = [[cos, -sin], [sin, cos]]."""
+        a, b, c = R.abc(c10, c12, p12)
+        kx = K0[mask] * rs[0] * lam
+        ky = K1[mask] * rs[1] * lam
+        rx = kx * math.cos(th) - ky * math.sin(th)
+        ry = kx * math.sin(th) + ky * math.cos(th)
+        return np.stack([a * rx + b * ry, b * rx + c * ry], 1)
+
+    if mode == "dp":
+        vbf = np.ones((int(mask.sum()), 4, 4), dtype=np.float32)
+        vd = Dataset3d.from_array(vbf, name="vbf", units=("index", "A", "A"), sampling=(1, 1.0, 1.0))
+        md = Dataset2d.from_array(mask, name="mask", units=("A^-1", "A^-1"), sampling=rs)
+        with ctx.sut(case, "DirectPtychography.from_virtual_bfs"):
+            dp = DirectPtychography.from_virtual_bfs(
+                vd, md, energy=float(case["energy"]), rotation_angle=0.0, aberration_coefs={},
+                semiangle_cutoff=20.0, crop_bf_mask=False, verbose=False,
+            )  # fmt: skip
+        lam, gpts, sampling, bfm = dp.wavelength, dp.gpts, dp.sampling, dp.bf_mask
+        if not np.array_equal(_np(bfm) != 0, mask):
+            raise core.HarnessError("DirectPtychography changed the mask although crop_bf_mask=False")
+
+        def predict(c10, c12, p12, th):
+            return dp._return_lateral_shifts(th, {"C10": c10, "C12": c12, "phi12": p12}, bfm)
+
+        with ctx.sut(case, "_return_lateral_shifts"):
+            shifts = predict(C10, C12, phi12, rot)
+    else:
+        lam = _wavelength(float(case["energy"]))
+        gpts = (n0, n1)
+        sampling = tuple(1.0 / (rs[i] * gpts[i]) for i in range(2))
+        bfm = tmask
+
+        def predict(c10, c12, p12, th):
+            return torch.tensor(forward64(c10, c12, p12, th, lam), dtype=torch.float32)
+
+        shifts = predict(C10, C12, phi12, rot)
     with ctx.sut(case, "fit_aberrations_from_shifts"):
-        fit = du.fit_aberrations_from_shifts(shifts, dp.bf_mask, dp.wavelength, dp.gpts, dp.sampling)
+        fit = du.fit_aberrations_from_shifts(shifts, bfm, lam, gpts, sampling)
     for k in ("C10", "C12", "phi12", "rotation_angle"):
         if k not in fit or not math.isfinite(float(fit[k])):
             raise core.Violation("fit_aberrations_from_shifts returned %r" % (fit,), case)
@@ -910,7 +1212,7 @@ def _check_fit(ctx, case):
 
     # representation-independent: the fitted parameters predict the shift field they were fitted to
     with ctx.sut(case, "_return_lateral_shifts (refitted parameters)"):
-        shifts2 = dp._return_lateral_shifts(frot, {"C10": f10, "C12": f12, "phi12": fphi}, dp.bf_mask)
+        shifts2 = predict(f10, f12, fphi, frot)
     s1 = _np(shifts)
     s2 = _np(shifts2)
     smax = float(np.max(np.abs(s1)))
@@ -919,8 +1221,9 @@ def _check_fit(ctx, case):
     definite = abs(C12) < abs(C10)
     if definite and not ef <= TOL_FIT:
         raise core.Violation(
-            "shifts predicted from the fitted parameters %r differ from the shifts that were fitted (generated by %r, rotation %r): "
-            "max difference %.3g of the largest shift" % (fit, gen, rot, ef),
+            "shifts predicted from the fitted parameters %r differ from the shifts that were fitted (generated by %r, rotation %r, "
+            "%d bright-field pixels, mask %r): max difference %.3g of the largest shift"
+            % (fit, gen, rot, int(mask.sum()), case.get("mask"), ef),
             case,
         )
     if identifiable:
@@ -933,8 +1236,9 @@ def _check_fit(ctx, case):
         _note(ctx, "max_abs_err_fit_rotation", er)
         if not (ea <= TOL_FIT and er <= TOL_FIT):
             raise core.Violation(
-                "fit of the shifts generated by C10=%r C12=%r phi12=%r rotation=%r returned %r "
-                "(aberration matrix off by %.3g relative, rotation off by %.3g rad)" % (C10, C12, phi12, rot, fit, ea, er),
+                "fit of the shifts generated by C10=%r C12=%r phi12=%r rotation=%r on %d bright-field pixels (mask %r) returned %r "
+                "(aberration matrix off by %.3g relative, rotation off by %.3g rad)"
+                % (C10, C12, phi12, rot, int(mask.sum()), case.get("mask"), fit, ea, er),
                 case,
             )
         e10 = abs(f10 - C10) / amax
@@ -953,6 +1257,8 @@ def check(ctx, case):
         return _check_cart(ctx, case)
     if kind == "alias":
         return _check_alias(ctx, case)
+    if kind == "alias_history":
+        return _check_history(ctx, case)
     if kind == "fit":
         return _check_fit(ctx, case)
     raise core.HarnessError("unknown case kind %r" % kind)
@@ -982,10 +1288,12 @@ def _singletons(ctx):
     # every alias alone at every site
     for site in SITES + [XCORR]:
         if site == XCORR and ctx.is_open(K_XCORR):
-            ctx.exclude(K_XCORR, len(R.ALIASES))
+            ctx.exclude(K_XCORR, 2)
             continue
         for alias in R.ALIASES:
             case = {"kind": "alias", "site": site, "items": [[alias, 123.5]]}
+            if site == XCORR and alias not in ("defocus", "astigmatism_angle"):
+                continue  # ~1 s per case; one code path for all aliases (the random xcorr cases draw the others)
             if site == XCORR:
                 case.update(rot=0.1, method="reference", regularize=True, data_seed=0)
             if site == "probe_check_params":
@@ -999,9 +1307,11 @@ def _singletons(ctx):
                 check(ctx, case)
     for site in SEARCH:
         if ctx.is_open(K_SEARCH):
-            ctx.exclude(K_SEARCH, len(R.ALIASES))
+            ctx.exclude(K_SEARCH, 2)
             continue
         for alias in R.ALIASES:
+            if alias not in (("defocus",) if site == "optuna_search" else ("defocus", "Cs", "coma_angle")):
+                continue  # ~1 s per case; one write-back code path for all aliases (the random cases draw the others)
             rng_ = {"low": 0.2, "high": 0.9, "n": 2} if alias.endswith("angle") else {"low": 100.0, "high": 300.0, "n": 2}
             if site == "optuna_search":
                 rng_["n"] = None
@@ -1012,16 +1322,17 @@ def _singletons(ctx):
 def search(ctx):
     if ctx.widx == 0:
         _singletons(ctx)
-    core.run_given(ctx, "surface", surface_cases(), lambda c: check(ctx, c), ctx.n(700, 7000))
+    core.run_given(ctx, "surface", surface_cases(), lambda c: check(ctx, c), ctx.n(600, 7000))
     core.run_given(ctx, "cart", cart_cases(), lambda c: check(ctx, c), ctx.n(300, 3000))
     core.run_given(ctx, "alias", alias_cases(), lambda c: check(ctx, c), ctx.n(900, 9000))
+    core.run_given(ctx, "history", history_cases(), lambda c: check(ctx, c), ctx.n(400, 4000))
     core.run_given(ctx, "fit", fit_cases(), lambda c: check(ctx, c), ctx.n(500, 6000))
     # whole alignments / searches: ~0.5 s per case
     if ctx.is_open(K_XCORR):
-        ctx.exclude(K_XCORR, ctx.n(12, 120))
+        ctx.exclude(K_XCORR, ctx.n(6, 120))
     else:
-        core.run_given(ctx, "xcorr", xcorr_cases(), lambda c: check(ctx, c), ctx.n(12, 120))
+        core.run_given(ctx, "xcorr", xcorr_cases(), lambda c: check(ctx, c), ctx.n(6, 120))
     if ctx.is_open(K_SEARCH):
-        ctx.exclude(K_SEARCH, ctx.n(14, 140))
+        ctx.exclude(K_SEARCH, ctx.n(8, 140))
     else:
-        core.run_given(ctx, "search", search_cases(), lambda c: check(ctx, c), ctx.n(14, 140))
+        core.run_given(ctx, "search", search_cases(), lambda c: check(ctx, c), ctx.n(8, 140))
